@@ -189,6 +189,67 @@ pub fn gen_t(r: &mut Rng, d: usize) -> T {
     }
 }
 
+/// a type of exactly the bit width `w`
+pub fn gen_t_width(r: &mut Rng, w: usize, d: usize) -> T {
+    if w == 0 {
+        return if d > 0 && r.below(4) == 0 { T::prod(T::One, T::One) } else { T::One };
+    }
+    if d > 0 && w >= 2 && r.below(3) == 0 {
+        let k = r.below(w as u64 + 1) as usize;
+        return T::prod(gen_t_width(r, k, d - 1), gen_t_width(r, w - k, d - 1));
+    }
+    let full = gen_t_width(r, w - 1, d.saturating_sub(1));
+    let ow = r.below(w as u64) as usize;
+    let other = gen_t_width(r, ow, d.saturating_sub(1));
+    match r.below(4) {
+        0 => T::sum(full, other),
+        1 => T::sum(other, full),
+        _ => {
+            let twin = gen_t_width(r, w - 1, d.saturating_sub(1));
+            T::sum(full, twin)
+        }
+    }
+}
+
+/// types for witness round-trips: sums whose branches have equal or nearly equal widths with
+/// padding on one side only, nested under products and sums
+pub fn gen_t_zoo(r: &mut Rng, d: usize) -> T {
+    match r.below(6) {
+        0 => gen_t(r, d),
+        1 if d > 0 => T::prod(gen_t_zoo(r, d - 1), gen_t_zoo(r, d - 1)),
+        2 if d > 0 => T::sum(gen_t_zoo(r, d - 1), gen_t_zoo(r, d - 1)),
+        _ => {
+            let w = r.below(5) as usize;
+            gen_t_width(r, w, 3)
+        }
+    }
+}
+
+/// (sums, sums whose left branch only is padded, sums whose right branch only is padded)
+pub fn padding_profile(t: &T) -> (usize, usize, usize) {
+    fn padded(t: &T) -> bool {
+        match t {
+            T::One => false,
+            T::Sum(a, b) => a.bw() != b.bw() || padded(a) || padded(b),
+            T::Prod(a, b) => padded(a) || padded(b),
+        }
+    }
+    match t {
+        T::One => (0, 0, 0),
+        T::Sum(a, b) | T::Prod(a, b) => {
+            let (s1, l1, r1) = padding_profile(a);
+            let (s2, l2, r2) = padding_profile(b);
+            let here = matches!(t, T::Sum(..)) as usize;
+            let eq = a.bw() == b.bw();
+            (
+                s1 + s2 + here,
+                l1 + l2 + (here == 1 && eq && padded(a) && !padded(b)) as usize,
+                r1 + r2 + (here == 1 && eq && !padded(a) && padded(b)) as usize,
+            )
+        }
+    }
+}
+
 pub fn gen_v(r: &mut Rng, t: &T) -> V {
     match t {
         T::One => V::U,
@@ -944,6 +1005,19 @@ impl<'a> PlanGen<'a> {
     pub fn finish(self) -> Plan {
         Plan { nodes: self.nodes }.compacted()
     }
+}
+
+/// `comp (pair w_1 (pair w_2 (… w_k))) unit`, witness `w_i` pinned to `tys[i]`
+pub fn witness_zoo_plan(r: &mut Rng, tys: &[T]) -> Plan {
+    let mut g = PlanGen::new(r, GenCfg { pin_witness: true, ..GenCfg::default() });
+    let ws: Vec<usize> = tys.iter().map(|t| g.witness_of(t)).collect();
+    let mut acc = *ws.last().unwrap();
+    for w in ws[..ws.len() - 1].iter().rev() {
+        acc = g.push(PNode::Pair(*w, acc));
+    }
+    let u = g.push(PNode::Unit);
+    g.push(PNode::Comp(acc, u));
+    g.finish()
 }
 
 /// program of exactly type `a → b` (source and target pinned)
